@@ -70,7 +70,14 @@ def calendar_specs(seed, n, tag):
     for i in range(n):
         rng = random.Random('%s/%s/%d' % (seed, tag, i))
         prices = {}
-        if i % 2 == 0:
+        if i % 3 == 2:
+            # weekly asset on a daily grid: the week of the clock change has a day of 23 h / 25 h
+            g = {'start': rng.choice(['2021-03-22 00:00', '2021-10-25 00:00']), 'freq': 'd', 'unit': rng.choice(['h', 'd']), 'tz': 'CET'}
+            g['end'] = (pd_ts(g['start']) + pd_td(days=14)).strftime('%Y-%m-%d %H:%M')
+            g['T'] = gen.grid_T(g)
+            kind = rng.choice(['SimpleContract', 'Transport', 'Storage'])
+            extra = {'freq': '7d'}
+        elif i % 2 == 0:
             g = {'start': rng.choice(['2021-03-27 00:00', '2021-10-30 00:00']), 'freq': 'h', 'unit': rng.choice(['h', 'd']), 'tz': 'CET'}
             g['end'] = (pd_ts(g['start']) + pd_td(days=3)).strftime('%Y-%m-%d %H:%M')
             g['T'] = gen.grid_T(g)
@@ -153,7 +160,7 @@ def run(ctx):
         return
     n = 70 if ctx.tier == 'quick' else 500
     specs = util.corpus(ctx.prop) + gen.gen_many(ctx.seed, n, CFG, 'c13_')
-    specs += calendar_specs(ctx.seed, 8 if ctx.tier == 'quick' else 40, 'c13cal_')
+    specs += calendar_specs(ctx.seed, 12 if ctx.tier == 'quick' else 60, 'c13cal_')
     specs = [claim_domain(sp) for sp in ctx.specs(specs)]
     res = C.run_impl('reference', specs)
     small = [sp for sp in specs if sp['grid']['T'] <= 16]
